@@ -131,8 +131,100 @@ fn is_known(known: &[KnownFinding], v: &Violation) -> bool {
         .any(|k| k.property == v.property && k.clause == v.clause)
 }
 
-/// Runs a batch; returns the process exit code
+/// Runs a batch in a child process so that a crash of the code under test
+/// (SIGSEGV in generated machine code, abort) is itself reported as a
+/// violation with a replayable seed; returns the process exit code
 pub fn check(spec: &CheckSpec, tier: Tier) -> i32 {
+    if std::env::var("VERIF_CHILD").is_ok() {
+        return check_inner(spec, tier);
+    }
+    let dir = verif_root().join("sim").join("target");
+    let _ = std::fs::create_dir_all(&dir);
+    let progress = dir.join(format!("progress-{}.txt", std::process::id()));
+    let _ = std::fs::write(&progress, vec![b' '; 64 * 32]);
+    let exe = std::env::current_exe().unwrap();
+    let t0 = Instant::now();
+    let status = std::process::Command::new(&exe)
+        .args(["check", spec.prop, tier.name()])
+        .env("VERIF_CHILD", "1")
+        .env("VERIF_PROGRESS", &progress)
+        .status();
+    let code = match &status {
+        Ok(s) => s.code(),
+        Err(_) => None,
+    };
+    if let Some(c) = code {
+        if c == 0 || c == 1 || c == 2 {
+            let _ = std::fs::remove_file(&progress);
+            return c;
+        }
+    }
+    // abnormal termination: find the run that kills the process
+    eprintln!("batch process terminated abnormally ({status:?}); isolating the run");
+    let text = std::fs::read_to_string(&progress).unwrap_or_default();
+    let _ = std::fs::remove_file(&progress);
+    let mut cands: Vec<u64> = text
+        .split_whitespace()
+        .filter_map(|t| t.parse().ok())
+        .collect();
+    cands.sort();
+    cands.dedup();
+    let seed = verif_seed();
+    for i in cands {
+        let st = std::process::Command::new(&exe)
+            .args(["one", spec.prop, tier.name(), &i.to_string()])
+            .env("VERIF_CHILD", "1")
+            .stdout(std::process::Stdio::null())
+            .stderr(std::process::Stdio::null())
+            .status();
+        let crashed = match &st {
+            Ok(s) => !matches!(s.code(), Some(0) | Some(1) | Some(2)),
+            Err(_) => false,
+        };
+        if crashed {
+            let rs = run_seed(spec, seed, i);
+            let dir = verif_root().join("replays");
+            let _ = std::fs::create_dir_all(&dir);
+            let path = dir.join(format!("{}-{}-crash-{}.json", spec.prop, seed, i));
+            let j = json!({
+                "property": spec.prop,
+                "clause": "process_crash",
+                "detail": format!("the process running the code under test died ({st:?})"),
+                "engine": spec.engine,
+                "tier": tier.name(),
+                "verif_seed": seed,
+                "run_index": i,
+                "run_seed": rs,
+                "mode": "seed",
+                "replay_cmd": format!("/verif/run.sh replay {}", path.display()),
+            });
+            std::fs::write(&path, serde_json::to_string_pretty(&j).unwrap()).unwrap();
+            println!("VIOLATION property={} replay={}", spec.prop, path.display());
+            println!("  clause=process_crash detail=run {i} kills the process ({st:?})");
+            let agg = Agg {
+                runs: i + 1,
+                evaluations: i + 1,
+                ..Default::default()
+            };
+            write_evidence(spec, tier, seed, &agg, t0.elapsed().as_secs_f64(), 1, i + 1);
+            return 1;
+        }
+    }
+    eprintln!("HARNESS-ERROR: batch process died but no single run reproduces it");
+    2
+}
+
+/// `one <prop> <tier> <index>`: a single run, for crash isolation
+pub fn one(spec: &CheckSpec, tier: Tier, index: u64) -> i32 {
+    let rs = run_seed(spec, verif_seed(), index);
+    match one_run(spec, tier, rs, None) {
+        Ok(r) if r.violations.is_empty() => 0,
+        Ok(_) => 1,
+        Err(_) => 2,
+    }
+}
+
+fn check_inner(spec: &CheckSpec, tier: Tier) -> i32 {
     let seed = verif_seed();
     let total = std::env::var("VERIF_RUNS")
         .ok()
@@ -165,12 +257,30 @@ pub fn check(spec: &CheckSpec, tier: Tier) -> i32 {
     let errors: Mutex<Vec<(u64, String)>> = Mutex::new(vec![]);
     let known = Arc::new(known);
 
+    let progress = std::env::var("VERIF_PROGRESS")
+        .ok()
+        .and_then(|p| std::fs::OpenOptions::new().write(true).open(p).ok());
+    let progress = &progress;
     std::thread::scope(|s| {
-        for _ in 0..jobs() {
-            s.spawn(|| {
+        for slot in 0..jobs() {
+            let next = &next;
+            let stop_after = &stop_after;
+            let capped = &capped;
+            let agg = &agg;
+            let found = &found;
+            let errors = &errors;
+            let known = &known;
+            s.spawn(move || {
                 let mut local = Agg::default();
                 loop {
                     let i = next.fetch_add(1, Ordering::Relaxed);
+                    if let Some(f) = progress {
+                        use std::os::unix::fs::FileExt;
+                        let _ = f.write_at(
+                            format!("{i:>30} \n").as_bytes(),
+                            (slot as u64 % 64) * 32,
+                        );
+                    }
                     if i >= total || i > stop_after.load(Ordering::Relaxed) {
                         break;
                     }
@@ -493,8 +603,34 @@ fn write_replay(
     path
 }
 
-/// `replay <file>`: re-executes a recorded run; exit 1 if it reproduces
+/// `replay <file>`: re-executes a recorded run in a child process; exit 1 if
+/// it reproduces (including reproducing a crash)
 pub fn replay(specs: &[CheckSpec], path: &str) -> i32 {
+    if std::env::var("VERIF_CHILD").is_ok() {
+        return replay_inner(specs, path);
+    }
+    let exe = std::env::current_exe().unwrap();
+    let st = std::process::Command::new(exe)
+        .args(["replay", path])
+        .env("VERIF_CHILD", "1")
+        .status();
+    match st.as_ref().ok().and_then(|s| s.code()) {
+        Some(c) if c == 0 || c == 1 || c == 2 => c,
+        _ => {
+            let j: Value = std::fs::read_to_string(path)
+                .ok()
+                .and_then(|s| serde_json::from_str(&s).ok())
+                .unwrap_or(Value::Null);
+            println!(
+                "REPRODUCED property={} clause=process_crash : the replay process died ({st:?})",
+                j["property"].as_str().unwrap_or("?")
+            );
+            1
+        }
+    }
+}
+
+fn replay_inner(specs: &[CheckSpec], path: &str) -> i32 {
     let Ok(s) = std::fs::read_to_string(path) else {
         eprintln!("cannot read {path}");
         return 2;
@@ -518,13 +654,21 @@ pub fn replay(specs: &[CheckSpec], path: &str) -> i32 {
         Tier::Quick
     };
     let rs = j["run_seed"].as_u64().unwrap_or(0);
-    let trace: Vec<u32> = j["choice_trace"]
-        .as_array()
-        .map(|a| a.iter().map(|v| v.as_u64().unwrap_or(0) as u32).collect())
-        .unwrap_or_default();
+    let trace: Option<Vec<u32>> = if j["mode"].as_str() == Some("seed") {
+        None
+    } else {
+        Some(
+            j["choice_trace"]
+                .as_array()
+                .map(|a| {
+                    a.iter().map(|v| v.as_u64().unwrap_or(0) as u32).collect()
+                })
+                .unwrap_or_default(),
+        )
+    };
     let clause = j["clause"].as_str().unwrap_or("").to_string();
     let expected = j["expected_log_hash"].as_str().unwrap_or("").to_string();
-    match one_run(spec, tier, rs, Some(trace)) {
+    match one_run(spec, tier, rs, trace) {
         Err(e) => {
             println!("replay aborted: {e}");
             2
